@@ -11,7 +11,7 @@ import (
 func init() {
 	register(&core.Rule{ID: "C14.7", Prop: "C14", MinSites: 1,
 		Desc: "iterate's extent does not move under the visitor: the loops of connMatrix.iterate range over the registry's containers themselves (the table / a row / the map) and no loop bound or index reads a field that addConn or delConn write (the insertion cursor is rewound by every removal, so a bound taken from it ends the shutdown sweep early)",
-		Run: runC14_7})
+		Run:  runC14_7})
 }
 
 func runC14_7(c *core.Ctx) {
@@ -89,4 +89,69 @@ func runC14_7(c *core.Ctx) {
 		return
 	}
 	c.Ok(f.Name, "loop extent independent of the cursor", f.Decl.Pos(), itoa(loops)+" loop(s) range over the containers; no bound reads a cursor field")
+}
+
+func init() {
+	register(&core.Rule{ID: "C15.6", Prop: "C15", MinSites: 1,
+		Desc: "the source-address hash sees the address only through its string: in sourceAddrHashLoadBalancer.next the address parameter is used solely as the receiver of String() – no type assertion, field or byte-level view of it can make two addresses that print alike land on different loops",
+		Run: runC15_6})
+}
+
+func runC15_6(c *core.Ctx) {
+	f := getFn(c, "", "sourceAddrHashLoadBalancer.next")
+	if f == nil {
+		return
+	}
+	param := f.param(0)
+	if param == nil {
+		c.Undecided(f.Name, "address parameter", f.Decl.Pos(), "next has no parameter")
+		return
+	}
+	parents := map[ast.Node]ast.Node{}
+	var stack []ast.Node
+	ast.Inspect(f.Decl.Body, func(n ast.Node) bool {
+		if n == nil {
+			stack = stack[:len(stack)-1]
+			return true
+		}
+		if len(stack) > 0 {
+			parents[n] = stack[len(stack)-1]
+		}
+		stack = append(stack, n)
+		return true
+	})
+	uses, bad := 0, ast.Node(nil)
+	ast.Inspect(f.Decl.Body, func(n ast.Node) bool {
+		id, ok := n.(*ast.Ident)
+		if !ok || f.Info.Uses[id] != types.Object(param) {
+			return true
+		}
+		uses++
+		// accepted: netAddr.String() – the ident is X of a selector "String" that is the Fun of a call without arguments
+		if sel, ok := parents[id].(*ast.SelectorExpr); ok && sel.X == ast.Expr(id) && sel.Sel.Name == "String" {
+			if call, ok := parents[sel].(*ast.CallExpr); ok && call.Fun == ast.Expr(sel) && len(call.Args) == 0 {
+				return true
+			}
+		}
+		if bad == nil {
+			bad = parents[id]
+		}
+		return true
+	})
+	if uses == 0 {
+		c.Violate(f.Name, "address used through String() only", f.Decl.Pos(), "the source-address balancer no longer looks at the address at all")
+		return
+	}
+	if bad != nil {
+		c.Violate(f.Name, "address used through String() only", bad.Pos(), "the remote address is inspected other than through String() ("+exprStr2(bad)+"): the loop is then a function of the address's representation (4-byte vs 16-byte IP, concrete type), so one and the same printed address can be served by two loops")
+		return
+	}
+	c.Ok(f.Name, "address used through String() only", f.Decl.Pos(), itoa(uses)+" use(s), all netAddr.String()")
+}
+
+func exprStr2(n ast.Node) string {
+	if e, ok := n.(ast.Expr); ok {
+		return exprStr(e)
+	}
+	return "statement"
 }
